@@ -30,7 +30,7 @@ def run(c):
         rule="grammar-based configurations (directives, nested blocks, macros, snippets, imports of snippets and files with forward/backward/self references, "
         "env placeholders, quoting, escapes, comments, CR/LF, line continuation, BOM), deep nesting around the limit, byte-level mutations of those and raw strings over the "
         "special alphabet; snippets/files whose imports multiply the tree (self-doubling, chains, mutual recursion, the exact boundary of the node limit), "
-        "blocks 'closed' by a same-line macro/snippet declaration (hundreds of lines), macro references inside longer arguments (defined / undefined / value-less / defined later); each input runs the real lexer/parser (watchdog + recover) and the Lean model; distinct = distinct op lines",
+        "blocks 'closed' by a same-line macro/snippet declaration (hundreds of lines), macro references inside longer arguments (defined / undefined / value-less / defined later), macros with unusual names (empty, `$`, parentheses, blanks, quotes, braces) referenced as whole arguments and inside arguments together with the generator's own record of which references are to macros declared at that point (op-line groups `| r`); each input runs the real lexer/parser (watchdog + recover) and the Lean model; distinct = distinct op lines",
         explanation="theorems for all character lists / all expressible trees; model tied to the code by differential runs on bytes; "
         "independent Go monitor for crash-freedom, output well-formedness and print/parse round trip",
         search=search,
